@@ -78,6 +78,7 @@ type inst struct {
 	trigLeft int           // fires when it reaches 0
 	trigHit  string        // where it fired
 	stopped  bool          // Shutdown already issued
+	twin     bool          // C07 twin instance
 	shadow   bool          // shadow instance (C02 oracle): emissions recorded separately, never delivered
 
 	outbox   []outMsg
